@@ -27,11 +27,15 @@ RULE = ("documents written by the harness's own encryptor (ISO 32000-1 Algorithm
         "numbers and non-zero generations for the per-object key; opened with user, owner and wrong passwords; every "
         "string/stream compared with the original, permissions with P, extracted text with the plain twin. "
         "Model-vs-implementation with hash/cipher calls recorded around hashlib and cryptography. "
+        "Revision-6 password hash: _r6_password on random passwords (0..127 bytes), salts and vectors against Model/CryptR6.v "
+        "(tables of its SHA-256/384/512 and AES-CBC calls, answer and number of rounds) and, on 400 / 8000 inputs, against the "
+        "reference Algorithm 2.B. "
         "Non-trivial: owner password differs from user password / object stream present.")
 TRUSTED = [
     "modelled by hand: Arcfour, PDFStandardSecurityHandler (init_params, compute_encryption_key, compute_u, "
     "verify_encryption_key, authenticate_*), V4 decrypt_aes128 + _unpad, V5 authenticate / decrypt_aes256, permission "
-    "bits (Model/Crypt.v); MD5, SHA-2/Algorithm 2.B and AES are parameters of the model, instantiated in the "
+    "bits (Model/Crypt.v), the revision-6 hash loop _r6_password with _bytes_mod_3 (Model/CryptR6.v); MD5, SHA-2 and AES "
+    "(and, in the V5 authentication theorems, the password hash as a whole) are parameters of the model, instantiated in the "
     "correspondence runs by tables of the calls pdfminer made (recorded by wrapping pdfdocument.md5, "
     "_password_hash and Cipher in the harness process; no change to the repository)",
     "not modelled in Coq: where decryption is applied while loading objects (getobj/decipher_all/PDFStream.decode), "
@@ -44,13 +48,17 @@ MANIFEST_ENTRY = {
     "technique": "Coq proofs with the hash functions and the block cipher as universally quantified parameters (RC4 "
                  "involution for every key, cancellation of the 20 key-xor rounds by induction, Algorithm 7 inverts "
                  "Algorithm 3, both passwords derive the same key, CBC round trip for any invertible block cipher, "
-                 "padding removal, permission bits via Z.testbit) + differential runs with recorded oracle tables and an "
+                 "padding removal, permission bits via Z.testbit; Algorithm 2.B: fuel bound 289 by a measure on the round number "
+                 "since a byte is at most 255, equality with the ISO formulation 'first round m >= 64 with last byte <= m - 32' by "
+                 "induction over the rounds, selector = big-endian number mod 3 by induction on the bytes) + differential runs with recorded oracle tables and an "
                  "independent encryptor",
     "text": "Theorems: rc4 k (rc4 k d) = d; per-object RC4 round trip; owner_recover(O from Algorithm 3) = padded user "
             "password for R2 and R3/4; user and owner password authenticate to the same file key whenever O and U were "
             "written by Algorithms 3-5, for every hash function; acceptance implies Algorithm 6; CBC decrypt . encrypt = id "
             "for every invertible block cipher; unpad(pad d) = d for every length; AES object decryption = original; R5/R6 "
-            "owner-then-user order; permission bits equal bits 3-5 of the stored signed P. Not provable: rejection of wrong "
+            "owner-then-user order; the revision-6 hash loop terminates for every hash/cipher after 64..288 rounds and returns "
+            "K_m[:32] for the first round m >= 64 whose E ends in a byte <= m - 32, its selector is E[:16] as a big-endian "
+            "number mod 3; permission bits equal bits 3-5 of the stored signed P. Not provable: rejection of wrong "
             "passwords (collision resistance) -- tested.",
     "note": "Trusted: Coq kernel, hashlib/cryptography primitives, the harness encryptor written from the ISO algorithms.",
     "design_ref": "DESIGN.md section 4, C10",
@@ -395,9 +403,91 @@ def gmixed(pairs):
     return glist(["([%s], %s)" % ("; ".join(gz(x) for x in k), gbytes(v)) for k, v in pairs])
 
 
+# ------------------------------------------------------------------ revision-6 password hash (Algorithm 2.B)
+def r6_cases(ctx, n_model, n_oracle):
+    """_r6_password against Model/CryptR6.v (tables of the SHA-2 and AES calls it made) and against the reference
+    implementation of ISO 32000-2 Algorithm 2.B"""
+    import hashlib
+    import pdfminer.pdfdocument as pd
+    h = pd.PDFStandardSecurityHandlerV5.__new__(pd.PDFStandardSecurityHandlerV5)
+    saved = (pd.sha256, pd.sha384, pd.sha512, pd.PDFStandardSecurityHandlerV5._aes_cbc_encrypt)
+    calls = {"aes": [], "sha256": [], "sha384": [], "sha512": []}
+
+    def mk(name, real):
+        class H:
+            def __init__(self, data=b""):
+                self.buf = bytes(data)
+
+            def update(self, d):
+                self.buf += bytes(d)
+
+            def digest(self):
+                d = real(self.buf).digest()
+                calls[name].append((self.buf, d))
+                return d
+        return H
+    real_aes = saved[3]
+
+    def aes(self, key, iv, data):
+        e = real_aes(self, key=key, iv=iv, data=data)
+        calls["aes"].append((bytes(key), bytes(iv), bytes(data), bytes(e)))
+        return e
+    cases, metas = [], []
+    try:
+        pd.sha256, pd.sha384, pd.sha512 = mk("sha256", hashlib.sha256), mk("sha384", hashlib.sha384), mk("sha512", hashlib.sha512)
+        pd.PDFStandardSecurityHandlerV5._aes_cbc_encrypt = aes
+        for i in range(n_model):
+            r = ctx.sub("r6m", i)
+            pw = bytes(r.randrange(256) for _ in range(r.choice([0, 1, 4, 8, 20, 127])))
+            salt = bytes(r.randrange(256) for _ in range(8))
+            vec = bytes(r.randrange(256) for _ in range(48)) if r.random() < 0.5 else None
+            for v in calls.values():
+                del v[:]
+            got = h._r6_password(pw, salt, vec)
+            rounds = len(calls["aes"])
+            ctx.case("r6hash", (pw, salt, vec), nontrivial=True, sample={"password": pw.hex()[:20], "rounds": rounds})
+            sur = {}
+            etab = []
+            for key, iv, data, e in calls["aes"]:
+                blk = data[:len(data) // 64]
+                if blk * 64 != data:
+                    ctx.violation("r6hash", {"password": pw.hex(), "salt": salt.hex()}, "the block 64 times", len(data), "AES input is not a 64-fold repetition")
+                k = "(%s ++ [-1] ++ %s ++ [-1] ++ %s)%%list" % (gbytes(key), gbytes(iv), gbytes(blk))
+                sur[e] = "(%s ++ %s ++ %s)%%list" % (gbytes(e[:16]), k, gbytes(e[-1:]))
+                etab.append((k, gbytes(e[:16] + e[-1:])))
+            tabs = []
+            for name in ("sha256", "sha384", "sha512"):
+                tabs.append([(sur.get(buf, gbytes(buf)), gbytes(d)) for buf, d in calls[name]])
+
+            def gt(pairs):
+                return glist(["(%s, %s)" % (k, v) for k, v in pairs]) if pairs else EMPTY_TABLE
+            cases.append(("(%s, (%s, %s, %s), (%s, %s, %s))" % (gt(etab), gt(tabs[0]), gt(tabs[1]), gt(tabs[2]), gbytes(pw), gbytes(salt), gbytes(vec or b"")),
+                          CLs([CBy(got), CZ(rounds)])))
+            metas.append({"password": pw.hex(), "salt": salt.hex(), "vector": (vec or b"").hex()})
+    finally:
+        pd.sha256, pd.sha384, pd.sha512, pd.PDFStandardSecurityHandlerV5._aes_cbc_encrypt = saved
+    bad = common.coq_cases("c10h", ["Model.Crypt", "Model.CryptR6", "Model.CryptRun"], "run_r6", cases, shard=2)
+    for i, shown in sorted(bad.items()):
+        ctx.disagree("r6hash", metas[i], shown[:300], str(cases[i][1])[:300])
+    # the reference implementation, on many more inputs (a slip in the loop bound shows in about one hash of forty)
+    for i in range(n_oracle):
+        r = ctx.sub("r6o", i)
+        pw = bytes(r.randrange(256) for _ in range(r.choice([0, 1, 4, 8, 20, 127])))
+        salt = bytes(r.randrange(256) for _ in range(8))
+        vec = bytes(r.randrange(256) for _ in range(48)) if r.random() < 0.5 else None
+        got = h._r6_password(pw, salt, vec)
+        want = pdfcrypt.hash_2b(pw, salt, vec or b"")
+        ctx.case("r6hash-ref", (pw, salt, vec), nontrivial=True)
+        if got != want:
+            ctx.violation("r6hash", {"password": pw.hex(), "salt": salt.hex(), "vector": (vec or b"").hex()}, want.hex(), got.hex(),
+                          "revision-6 password hash differs from ISO 32000-2 Algorithm 2.B")
+            break
+
+
 def correspondence(ctx):
     rc4_cases(ctx, ctx.n(100, 2000))
     docs_cases(ctx, ctx.n(64, 1600))
+    r6_cases(ctx, ctx.n(16, 120), ctx.n(400, 8000))
 
 
 def oracle(ctx):
